@@ -10,6 +10,8 @@ CLAIMED = {
          "MIR-driver rules: callee type-argument wrap discipline, trait-surface completeness, decision tables by control dependence, dominance"),
  "C05": ("other", "Structural decision: strict behaviour carried through every container path (51 carrier slots), server entry types bound to UnknownFieldsBehavior<client>, interception chain wired by callee type arguments, terminal deserialize_ignored_any always errors with the recorded key, clients never intercept.", "4/C05",
          "MIR-driver rules: wrap discipline by callee type arguments, chain following, dataflow + post-dominance at the terminal"),
+ "C15": ("proof", "Proof by construction-site induction over the whole workspace: every Aggregate(SafeLong) in the compiler's MIR is a folded in-range constant, a widening of a <=32-bit integer, a copy/default, or control-dependent on Cmin <= v <= Cmax for the same never-reassigned v; representation private, no mutable access, no transmute; bounds fold to exactly +-(2^53-1) and the accepted interval is exact; all conversion routes use lossless conversions into the checked constructor. All obligations are re-derived from the current tree on every run.", "4/C15",
+         "MIR-driver rules: construction-site enumeration, guard dominance with interval extraction, constant folding, who-may-write"),
 }
 NA = {
  "C11": "Content negotiation quantifies over parsed header lists and numeric q-values; its truth lives in comparator outcomes, not in the shape of the code. The structural clauses in reach are decided under C06/C04; a mirror of this implementation's iterator chain would be a brittle proxy (DESIGN.md section 4/C11).",
